@@ -16,6 +16,8 @@ import (
 	"net"
 	"net/http"
 	"net/url"
+	"os"
+	"path/filepath"
 	"strconv"
 	"strings"
 	"time"
@@ -203,6 +205,75 @@ func runBinAddr(args []string) {
 		cc.c.Close()
 		p.stop()
 	}
+	tr.close()
+	ioutil.WriteFile(statusFile, []byte("OK\n"), 0644)
+}
+
+// runBinRestart: the pool binary on its persistent store is killed and started again on the same data directory; requests
+// it honoured before (captured byte for byte) are sent again before and after the restart.
+//
+//	vipreal binrestart <vipnode binary> <workdir> <trace> <status>
+func runBinRestart(args []string) {
+	if len(args) != 4 {
+		fatal("usage: vipreal binrestart vipnode-binary workdir trace status")
+	}
+	statusFile = args[3]
+	tr, err := newTrace(args[2])
+	if err != nil {
+		fatal("%v", err)
+	}
+	names := newNames(31)
+	node, owner := names.get("n1"), names.get("w1")
+	dbdir := filepath.Join(args[1], "binrestart-db")
+	os.RemoveAll(dbdir)
+	start := func() *poolProc { return startPool(args[0], "--store", "persist", "--datadir", dbdir) }
+	p := start()
+	nonce := time.Now().UnixNano()
+	body := func(id int, method string, params ...interface{}) string {
+		b, _ := json.Marshal(params)
+		return fmt.Sprintf(`{"jsonrpc":"2.0","id":%d,"method":%q,"params":%s}`, id, method, b)
+	}
+	connReq := pool.ConnectRequest{NodeInfo: ethnode.UserAgent{Kind: ethnode.Geth}}
+	sigN, _ := request.Sign(node.key, "vipnode_connect", node.nodeID, nonce, connReq)
+	sigW, _ := request.Sign(owner.key, "pool_addNode", owner.wallet, nonce, node.nodeID)
+	captured := map[string]string{
+		"node":   body(1, "vipnode_connect", sigN, node.nodeID, nonce, connReq),
+		"wallet": body(2, "pool_addNode", sigW, owner.wallet, nonce, node.nodeID),
+	}
+	classify := func(txt string) (accepted, nonceRefused bool) {
+		var m struct {
+			Error *struct {
+				Message string `json:"message"`
+			} `json:"error"`
+		}
+		if json.Unmarshal([]byte(txt), &m) != nil {
+			return false, false
+		}
+		if m.Error == nil {
+			return true, false
+		}
+		return false, strings.Contains(m.Error.Message, "invalid nonce")
+	}
+	send := func(phase string) {
+		for _, kind := range []string{"node", "wallet"} {
+			st, txt := httpRPC(p.addr, captured[kind])
+			acc, nr := classify(txt)
+			errc := ""
+			if nr {
+				errc = "verify:nonce"
+			} else if !acc {
+				errc = "other"
+			}
+			tr.emit(J{"op": "BinReplay:" + phase, "a": J{"op": "BinReplay:" + phase, "kind": kind}, "r": J{"ok": acc, "err": errc},
+				"ev": "binreplay", "phase": phase, "kind": kind, "http": st, "accepted": acc, "noncerefused": nr, "alive": p.alive(), "reply": ethAbs(txt)})
+		}
+	}
+	send("first")
+	send("replay")
+	p.stop() // SIGKILL
+	p = start()
+	send("after-restart")
+	p.stop()
 	tr.close()
 	ioutil.WriteFile(statusFile, []byte("OK\n"), 0644)
 }
